@@ -138,10 +138,12 @@ class Sequences:
     role = "bounded stand-in for load_database on multi-entry databases"
 
     def bound(self, tier):
-        return "6 hand-built multi-entry databases (directory then no directory; argument vectors that differ only in how a value with a blank is split; repeated unknown compiler)"
+        return ("9 hand-built multi-entry databases (directory then no directory; argument vectors that differ only in how a value with a "
+                "blank is split; repeated unknown compiler; entries that differ only in separately given option values; the same "
+                "entry twice)")
 
     def inputs(self, tier, seed):
-        for k in range(6):
+        for k in range(9):
             yield {"case": k}
 
     def nontrivial(self, inp):
@@ -172,6 +174,14 @@ class Sequences:
                 wantd = [["FLAGS=-O2 -DNDEBUG"], ["FLAGS=-O2", "NDEBUG"]]
                 if k == 3:
                     wantd.reverse()
+            elif k in (6, 7, 8):
+                Z = os.path.join(root, "src/z.cpp")
+                e1 = {"file": A, "arguments": ["gcc", "-c", "-D", "KIND=alpha", "-I", "inc", "-include", "pre_a.h", "-DCOMMON", A]}
+                e2 = {"file": Z, "arguments": ["gcc", "-c", "-D", "KIND=beta", "-I", "build/inc", "-include", "pre_b.h", "-DCOMMON", Z]}
+                db = {6: [e1, e2], 7: [e2, e1], 8: [e1, e1, e2]}[k]
+                want = None
+                wantd = [["KIND=alpha", "COMMON"] if e is e1 else ["KIND=beta", "COMMON"] for e in db]
+                wanti = [([os.path.join(root, "inc")], ["pre_a.h"]) if e is e1 else ([os.path.join(root, "build/inc")], ["pre_b.h"]) for e in db]
             else:
                 db = [{"file": A, "arguments": ["mycc-unknown", "-c", A]},
                       {"file": os.path.join(root, "src/z.cpp"), "arguments": ["mycc-unknown", "-c", os.path.join(root, "src/z.cpp")]}]
@@ -200,7 +210,11 @@ class Sequences:
                 got = [e["defines"] for e in out]
                 if got != wantd:
                     return {"expected": wantd, "observed": got, "klass": "load_database:entries-confused"}
-            if k >= 4:
+            if k in (6, 7, 8):
+                got = [(e["include_paths"], e["include_files"]) for e in out]
+                if got != wanti:
+                    return {"expected": wanti, "observed": got, "klass": "load_database:entries-confused"}
+            if k in (4, 5):
                 n = sum(1 for r in h.records if "not recognized" in r.getMessage())
                 if n != len(db):
                     return {"expected": f"{len(db)} unknown-compiler warnings (one per entry)", "observed": n,
